@@ -34,7 +34,7 @@ META = {
     "trusted_base": ["picos evaluates its own affine expressions correctly (extraction, cross-checked at a random point)",
                      "textbook strong duality of the exclusion SDPs", "conic solvers (replay only)", "z3 5.1.0"],
     "outside_claim": ["which ensembles have value 0 (trine, BB84, PBR at the known angle): numerical optimum of the solver",
-                      "POVM read-back from dual variables; unitary invariance; value <= smallest prior (consequences of the definition)",
+                      "POVM read-back from dual variables; unitary invariance (consequences of the definition); value <= smallest prior is decided on the captured primal program through the family of guessing strategies M_i = q_i 1 (T5, sdpcap/order.py)",
                       "solver failures (cvxopt ZeroDivisionError on degenerate instances)",
                       "instance data is concrete: the claim is per instance of the family, for all decision-variable values"],
     "assumptions": ["instance amplitudes are rationals with small denominators so that extraction is exact"],
@@ -253,7 +253,8 @@ def obligations(tier):
                 obs.append(SdpTask("state_exclusion.program_is_textbook_program", cfg,
                                    (lambda vs=vs, ps=ps, strat=strat, pd=pd: state_exclusion(vs, ps, strategy=strat, primal_dual=pd)),
                                    REFS[(strat, pd)], instance=(vs, pp), replay_oracle=min_error_exclusion_oracle if strat == "min_error" else None))
-    from props.c10 import earlier_result_tasks
+    from props.c10 import bound_obligations, earlier_result_tasks
+    obs += [t for t in bound_obligations(state_exclusion, "state_exclusion.min_error_value_at_most_every_guessing_strategy_hence_the_smallest_prior", "min", tier)]
     obs += earlier_result_tasks(state_exclusion, "state_exclusion.returned_measurement_is_unchanged_by_a_later_call")
     from props.c09 import DualityTask
     for name, vs, ps in instances(tier):
